@@ -9,7 +9,7 @@
     [ev_valid] excludes only the empty key in Put/Get/Delete (the property is about non-empty keys;
     query arguments may be empty). *)
 From Coq Require Import List NArith ZArith.
-From Algo.C06 Require Import Spec SpecFacts Model ModelPat ProofsBin ProofsBinQ ProofsBinMain PatSweep.
+From Algo.C06 Require Import Spec SpecFacts Model ModelPat ProofsBin ProofsBinQ ProofsBinMain PatSweep PatInv.
 Import ListNotations.
 
 Local Notation a := 97%N.
@@ -117,7 +117,22 @@ Example C06_example_patricia :
   p_run p_new es = s_run [] es.
 Proof. vm_compute. reflexivity. Qed.
 
-(** Proved part (finite, kernel-checked by vm_compute, deletes included): every history of at most 4
+(** Proved part 1 (universal over states): in every state [t] of the Patricia model that passes the
+    executable structural check [p_inv_check] (the threads unfold into a tree in which every key below
+    the left/right link of a node has bit 0/1 at the node's bit position, the keys in thread order are
+    strictly increasing, size = number of threads), the queries Get, Size, Floor, Ceiling, Select,
+    Rank, Range, RangeSize and All — with present or absent arguments — return exactly what the
+    specification returns on the state's contents, and neither panic nor run out of fuel.
+    Not proved: that Put/Delete/DeleteMin/DeleteMax lead from a checked state to a checked state with
+    the specification's contents; the driver evaluates [p_inv_check] on the model after every mutator
+    of every replayed case and compares All() with the specification (correspondence). Min, Max and
+    Match are covered by the bounded theorem and the correspondence only. *)
+Theorem C06_patricia_queries_checked_partial :
+  forall (V : Type) (t : pstate V) (e : ev V), p_inv_check t = true -> checked_query e ->
+    p_step t e = (t, snd (s_step (p_contents t) e)).
+Proof. intros. now apply p_step_checked. Qed.
+
+(** Proved part 2 (finite, kernel-checked by vm_compute, deletes included): every history of at most 4
     mutators (Put/Delete of 5 keys with dense prefix relations, a high byte and a '*', DeleteMin,
     DeleteMax, DeleteAll: 30941 histories) followed by 96 queries (Size, All, Min, Max, Get / Floor /
     Ceiling / Rank of 13 present and absent arguments, Select -1..5, Range, RangeSize, Match with 0-3
@@ -164,6 +179,7 @@ Print Assumptions C06_spec_longestprefixof.
 Print Assumptions C06_spec_match.
 Print Assumptions C06_spec_floor.
 Print Assumptions C06_spec_ceiling.
+Print Assumptions C06_patricia_queries_checked_partial.
 Print Assumptions C06_patricia_bounded_partial.
 Print Assumptions C06_patricia_withprefix_refuted.
 Print Assumptions C06_patricia_longestprefixof_refuted.
